@@ -1375,6 +1375,10 @@ def check_C16(chk, R, S):
 def gen_trip_case(R, scripted=False, maxops=14):
     def rng():
         a = float(R.randint(-60, 40))
+        if R.random() < 0.25:
+            # bounds that are not on any decimal grid; degenerate and very thin ranges (a fixed flight level)
+            a = a + R.choice([0.3456, 0.00049, 1.0 / 3, 0.123456789])
+            return (a, a + R.choice([0.0, 0.0, 0.0004, 1e-6, 0.5]))
         return (a, a + R.choice([0.0, 1.0, 10.0, 100.0, 37.5]))
     box = (rng(), rng(), rng())
     tol = R.choice([1.0, 0.5, 2.0])
